@@ -212,7 +212,7 @@ func (a *AV) Canon() string {
 }
 
 func (a *AV) Equal(b *AV) bool { return a.Canon() == b.Canon() }
-func (a *AV) IsSet() bool     { return a.K == 's' }
+func (a *AV) IsSet() bool      { return a.K == 's' }
 func (a *AV) Has(e *AV) bool {
 	c := e.Canon()
 	for _, x := range a.S {
@@ -272,6 +272,7 @@ type ShapeInfo struct {
 	Holes        bool
 	Offset       bool
 	Nested       bool
+	MultiDict    bool // a dictionary key with several values
 	ByteGaps     bool // byte tuples whose indices are not contiguous (no representation: TODO in rel.Bytes)
 }
 
@@ -288,6 +289,8 @@ func (a *AV) Shape() ShapeInfo {
 			si.Superimposed = si.Superimposed || s.Superimposed
 			si.Holes = si.Holes || s.Holes
 			si.Offset = si.Offset || s.Offset
+			si.ByteGaps = si.ByteGaps || s.ByteGaps
+			si.MultiDict = si.MultiDict || s.MultiDict
 			if v.K != 'n' {
 				si.Nested = true
 			}
@@ -322,6 +325,7 @@ func (a *AV) Shape() ShapeInfo {
 		si.Holes = si.Holes || s.Holes
 		si.Offset = si.Offset || s.Offset
 		si.ByteGaps = si.ByteGaps || s.ByteGaps
+		si.MultiDict = si.MultiDict || s.MultiDict
 		switch e.K {
 		case 'n':
 			kinds["nums"]++
@@ -335,7 +339,11 @@ func (a *AV) Shape() ShapeInfo {
 				key := k + "@" + e.T["at"].Canon()
 				idx[key]++
 				if idx[key] > 1 {
-					si.Superimposed = true
+					if k == "va" {
+						si.MultiDict = true // several values for one key: Dict supports this
+					} else {
+						si.Superimposed = true
+					}
 				}
 				if k != "va" {
 					sp := spans[k]
@@ -418,6 +426,9 @@ func (si ShapeInfo) Flags() []string {
 	}
 	if si.ByteGaps {
 		f = append(f, "bytegaps")
+	}
+	if si.MultiDict {
+		f = append(f, "multidict")
 	}
 	return f
 }
